@@ -2,6 +2,7 @@ package rules
 
 import (
 	"fmt"
+	"os"
 	"strings"
 
 	"golang.org/x/tools/go/ssa"
@@ -59,7 +60,7 @@ var ruleMonotone = &core.Rule{ID: "R17.1", Min: 90,
 				s.OK(key, c.Pos(n.Pos), "monotone up to hand-over to root-level detector(s) "+strings.Join(v.Handover, ", "))
 			default:
 				why := strings.Join(v.Why, "; ")
-				if len(why) > 400 {
+				if len(why) > 400 && os.Getenv("MTVERIF_LONG") == "" {
 					why = why[:400] + "..."
 				}
 				s.Bad(key, c.Pos(n.DetFn.Pos()), fmt.Sprintf("prefix-monotonicity of %s not proved (%s): %s — a header of L bytes may be accepted while a longer header of the same file is rejected, so raising the limit can turn a recognised binary file into application/octet-stream or text", core.FName(n.DetFn), v.Kind, why))
